@@ -226,4 +226,175 @@ theorem gt_slack (x bound cmp : Int) (hx : 0 ≤ x) (hx1 : x ≤ P) (hb : 2 ≤ 
   nlinarith [hE, hrem, hbτ, hbT, hS, hcr]
 
 
+/-! ## either sign of `x` on the unit interval: two-sided term bounds -/
+
+/-- truncating division is within one unit of the exact quotient, whatever the sign -/
+theorem tdiv_abs_real (a d : Int) (hd : 0 < d) : |((a.tdiv d : Int) : ℝ) - (a : ℝ) / (d : ℝ)| < 1 := by
+  rcases Int.le_total 0 a with ha | ha
+  · have h1 := tdiv_le_real a d ha hd
+    have h2 := tdiv_gt_real a d ha hd
+    rw [abs_lt]; constructor <;> linarith
+  · have ha' : 0 ≤ -a := by omega
+    have h1 := tdiv_le_real (-a) d ha' hd
+    have h2 := tdiv_gt_real (-a) d ha' hd
+    rw [Int.neg_tdiv] at h1 h2
+    push_cast at h1 h2
+    rw [neg_div] at h1 h2
+    rw [abs_lt]; constructor <;> linarith
+
+theorem scale_abs_real (z : Int) : |((scale z : Int) : ℝ) - (z : ℝ) / (P : ℝ)| < 1 := by
+  have h1 := scale_le_real z
+  have h2 := scale_gt_real z
+  rw [abs_lt]; constructor <;> linarith
+
+/-- every fixed-point Taylor term is within 3 ulp of the true term, for `|x| ≤ 1` (either sign) -/
+theorem tterm_abs (x : Int) (hx : -P ≤ x) (hx1 : x ≤ P) (i : Nat) :
+    |toReal (tterm x i) - toReal x ^ (i + 1) / ((i + 1).factorial : ℝ)| ≤ 3 / (P : ℝ) := by
+  have hP := P_real_pos
+  have hr1 : |toReal x| ≤ 1 := by
+    simp only [toReal]
+    rw [abs_div, abs_of_pos hP, div_le_one hP, abs_le]
+    constructor
+    · have : ((-P : Int) : ℝ) ≤ (x : ℝ) := by exact_mod_cast hx
+      push_cast at this; exact this
+    · exact_mod_cast hx1
+  induction i with
+  | zero =>
+    simp only [tterm, zero_add, pow_one, Nat.factorial_one, Nat.cast_one, div_one, sub_self, abs_zero]
+    positivity
+  | succ i ih =>
+    have hdpos : (0 : Int) < ((i : Int) + 2) * P := Int.mul_pos (by omega) P_pos
+    have hi : (0 : ℝ) < (i : ℝ) + 2 := by positivity
+    have hi2 : (2 : ℝ) ≤ (i : ℝ) + 2 := by have : (0 : ℝ) ≤ (i : ℝ) := Nat.cast_nonneg i; linarith
+    have h1 := tdiv_abs_real (scale (tterm x i * x) * P) (((i : Int) + 2) * P) hdpos
+    have h2 := scale_abs_real (tterm x i * x)
+    have e : tterm x (i + 1) = (scale (tterm x i * x) * P).tdiv (((i : Int) + 2) * P) := rfl
+    -- |t_{i+1} - s/(i+2)| < 1
+    have h3 : |((tterm x (i + 1) : Int) : ℝ) - ((scale (tterm x i * x) : Int) : ℝ) / ((i : ℝ) + 2)| < 1 := by
+      rw [e]; push_cast at h1 ⊢
+      rwa [mul_div_mul_right _ _ hP.ne'] at h1
+    push_cast at h2
+    -- |s/(i+2) - t_i x / (P (i+2))| < 1/(i+2) ≤ 1/2
+    have h4 : |((scale (tterm x i * x) : Int) : ℝ) / ((i : ℝ) + 2) - (tterm x i : ℝ) * (x : ℝ) / (P : ℝ) / ((i : ℝ) + 2)| ≤ 1 / 2 := by
+      rw [← sub_div, abs_div, abs_of_pos hi, div_le_iff₀ hi]
+      have : (1 : ℝ) / 2 * ((i : ℝ) + 2) ≥ 1 := by linarith
+      linarith
+    -- in toReal units: |T_{i+1} - T_i r/(i+2)| ≤ (3/2)/P
+    have h5 : |toReal (tterm x (i + 1)) - toReal (tterm x i) * toReal x / ((i : ℝ) + 2)| ≤ (3 / 2) / (P : ℝ) := by
+      have e2 : toReal (tterm x (i + 1)) - toReal (tterm x i) * toReal x / ((i : ℝ) + 2) =
+          (((tterm x (i + 1) : Int) : ℝ) - (tterm x i : ℝ) * (x : ℝ) / (P : ℝ) / ((i : ℝ) + 2)) / (P : ℝ) := by
+        simp only [toReal]; field_simp
+      rw [e2, abs_div, abs_of_pos hP]
+      apply div_le_div_of_nonneg_right _ hP.le
+      have tri := abs_sub_le ((tterm x (i + 1) : Int) : ℝ) (((scale (tterm x i * x) : Int) : ℝ) / ((i : ℝ) + 2))
+        ((tterm x i : ℝ) * (x : ℝ) / (P : ℝ) / ((i : ℝ) + 2))
+      linarith
+    have hf : ((i + 1 + 1).factorial : ℝ) = ((i : ℝ) + 2) * ((i + 1).factorial : ℝ) := by
+      rw [Nat.factorial_succ (i + 1)]; push_cast; ring
+    have htau : toReal x ^ (i + 1 + 1) / ((i + 1 + 1).factorial : ℝ) =
+        (toReal x ^ (i + 1) / ((i + 1).factorial : ℝ)) * toReal x / ((i : ℝ) + 2) := by
+      have hfpos : (0 : ℝ) < ((i + 1).factorial : ℝ) := by positivity
+      rw [hf, pow_succ (toReal x) (i + 1)]; field_simp
+    rw [htau]
+    -- |T_i r/(i+2) - τ_i r/(i+2)| ≤ (3/P)/2
+    have h6 : |toReal (tterm x i) * toReal x / ((i : ℝ) + 2) -
+        (toReal x ^ (i + 1) / ((i + 1).factorial : ℝ)) * toReal x / ((i : ℝ) + 2)| ≤ (3 / (P : ℝ)) / 2 := by
+      rw [← sub_div, ← sub_mul, abs_div, abs_mul, abs_of_pos hi, div_le_iff₀ hi]
+      have h3P : (0 : ℝ) ≤ 3 / (P : ℝ) := by positivity
+      have hxa : (0 : ℝ) ≤ |toReal x| := abs_nonneg _
+      have hdiff := abs_nonneg (toReal (tterm x i) - toReal x ^ (i + 1) / ((i + 1).factorial : ℝ))
+      calc |toReal (tterm x i) - toReal x ^ (i + 1) / ((i + 1).factorial : ℝ)| * |toReal x|
+          ≤ 3 / (P : ℝ) * 1 := mul_le_mul ih hr1 hxa h3P
+        _ ≤ 3 / (P : ℝ) / 2 * ((i : ℝ) + 2) := by nlinarith
+    have tri := abs_sub_le (toReal (tterm x (i + 1))) (toReal (tterm x i) * toReal x / ((i : ℝ) + 2))
+      ((toReal x ^ (i + 1) / ((i + 1).factorial : ℝ)) * toReal x / ((i : ℝ) + 2))
+    have e3 : (3 / 2) / (P : ℝ) + (3 / (P : ℝ)) / 2 = 3 / (P : ℝ) := by ring
+    linarith
+
+theorem psum_abs (x : Int) (hx : -P ≤ x) (hx1 : x ≤ P) (n : Nat) :
+    |toReal (psum x n) - ∑ m ∈ range (n + 1), toReal x ^ m / (m.factorial : ℝ)| ≤ 3 * (n : ℝ) / (P : ℝ) := by
+  rw [psum_real, sum_range_succ']
+  simp only [pow_zero, Nat.factorial_zero, Nat.cast_one, div_one]
+  have e : (1 + ∑ i ∈ range n, toReal (tterm x i)) - (∑ i ∈ range n, toReal x ^ (i + 1) / ((i + 1).factorial : ℝ) + 1)
+      = ∑ i ∈ range n, (toReal (tterm x i) - toReal x ^ (i + 1) / ((i + 1).factorial : ℝ)) := by
+    rw [sum_sub_distrib]; ring
+  rw [e]
+  refine le_trans (abs_sum_le_sum_abs _ _) ?_
+  have : ∑ i ∈ range n, |toReal (tterm x i) - toReal x ^ (i + 1) / ((i + 1).factorial : ℝ)| ≤
+      ∑ _i ∈ range n, 3 / (P : ℝ) := sum_le_sum (fun i _ => tterm_abs x hx hx1 i)
+  rw [sum_const, card_range, nsmul_eq_mul] at this
+  have e2 : (n : ℝ) * (3 / (P : ℝ)) = 3 * (n : ℝ) / (P : ℝ) := by ring
+  linarith
+
+/-- **both verdicts with explicit slack, either sign of `x`**: on `-1 ≤ x ≤ 1` with `bound ≥ 2`,
+    a compare value beyond `approx ± |term·bound|` is beyond `e^x` up to `(3·k + 3·bound)` ulp -/
+theorem verdict_slack (x bound cmp : Int) (hx : -P ≤ x) (hx1 : x ≤ P) (hb : 2 ≤ bound) (k : Nat) (hk : 0 < k) :
+    (cmp > psum x k + ((tterm x k * bound).natAbs : Int) →
+      Real.exp (toReal x) < toReal cmp + (3 * (k : ℝ) + 3 * (bound : ℝ)) / (P : ℝ)) ∧
+    (cmp < psum x k - ((tterm x k * bound).natAbs : Int) →
+      toReal cmp - (3 * (k : ℝ) + 3 * (bound : ℝ)) / (P : ℝ) < Real.exp (toReal x)) := by
+  have hP := P_real_pos
+  have hr1 : |toReal x| ≤ 1 := by
+    simp only [toReal]
+    rw [abs_div, abs_of_pos hP, div_le_one hP, abs_le]
+    constructor
+    · have : ((-P : Int) : ℝ) ≤ (x : ℝ) := by exact_mod_cast hx
+      push_cast at this; exact this
+    · exact_mod_cast hx1
+  have hbr : (2 : ℝ) ≤ (bound : ℝ) := by exact_mod_cast hb
+  -- the error term in real units: bound * |T_k|
+  have het : |((tterm x k : Int) : ℝ) * (bound : ℝ)| / (P : ℝ) = (bound : ℝ) * |toReal (tterm x k)| := by
+    rw [abs_mul, abs_of_nonneg (by linarith : (0 : ℝ) ≤ (bound : ℝ))]
+    simp only [toReal]
+    rw [abs_div, abs_of_pos hP]; ring
+  have hS := psum_abs x hx hx1 k
+  have hT := tterm_abs x hx hx1 k
+  have hE := Real.exp_bound hr1 (n := k + 1) (Nat.succ_pos k)
+  set τ := toReal x ^ (k + 1) / ((k + 1).factorial : ℝ) with hτ
+  set S := ∑ m ∈ range (k + 1), toReal x ^ m / (m.factorial : ℝ) with hS'
+  -- remainder ≤ 2 |τ|
+  have hrem : |toReal x| ^ (k + 1) * (((k + 1).succ : ℕ) / (((k + 1).factorial : ℝ) * ((k + 1 : ℕ) : ℝ))) ≤ 2 * |τ| := by
+    have hk1 : (0 : ℝ) < ((k + 1 : ℕ) : ℝ) := by positivity
+    have hfp : (0 : ℝ) < ((k + 1).factorial : ℝ) := by positivity
+    have e : |toReal x| ^ (k + 1) * (((k + 1).succ : ℕ) / (((k + 1).factorial : ℝ) * ((k + 1 : ℕ) : ℝ)))
+        = |τ| * ((((k + 1).succ : ℕ) : ℝ) / ((k + 1 : ℕ) : ℝ)) := by
+      rw [hτ, abs_div, abs_pow, abs_of_pos hfp]; field_simp
+    rw [e]
+    have : (((k + 1).succ : ℕ) : ℝ) / ((k + 1 : ℕ) : ℝ) ≤ 2 := by
+      rw [div_le_iff₀ hk1]; push_cast
+      have : (0 : ℝ) ≤ (k : ℝ) := Nat.cast_nonneg k
+      linarith
+    have := abs_nonneg τ
+    nlinarith
+  have hE2 : |Real.exp (toReal x) - S| ≤ 2 * |τ| := le_trans hE hrem
+  -- |T_k| ≥ |τ| - 3/P
+  have hTabs : |τ| - 3 / (P : ℝ) ≤ |toReal (tterm x k)| := by
+    have := abs_sub_abs_le_abs_sub τ (toReal (tterm x k))
+    rw [abs_sub_comm] at this
+    linarith
+  have hbT : (bound : ℝ) * (|τ| - 3 / (P : ℝ)) ≤ (bound : ℝ) * |toReal (tterm x k)| :=
+    mul_le_mul_of_nonneg_left hTabs (by linarith)
+  have hbτ : 2 * |τ| ≤ (bound : ℝ) * |τ| := by
+    have := abs_nonneg τ; nlinarith
+  have e2 : (3 * (k : ℝ) + 3 * (bound : ℝ)) / (P : ℝ) = 3 * (k : ℝ) / (P : ℝ) + (bound : ℝ) * (3 / (P : ℝ)) := by ring
+  rw [abs_le] at hS hE2
+  constructor
+  · intro hc
+    have hcr : toReal (psum x k) + (bound : ℝ) * |toReal (tterm x k)| < toReal cmp := by
+      have : ((psum x k + ((tterm x k * bound).natAbs : Int) : Int) : ℝ) < (cmp : ℝ) := by exact_mod_cast hc
+      have h := div_lt_div_of_pos_right this hP
+      push_cast at h
+      rw [add_div, het] at h
+      exact h
+    rw [e2]; linarith [hS.1, hE2.2]
+  · intro hc
+    have hcr : toReal cmp < toReal (psum x k) - (bound : ℝ) * |toReal (tterm x k)| := by
+      have : (cmp : ℝ) < ((psum x k - ((tterm x k * bound).natAbs : Int) : Int) : ℝ) := by exact_mod_cast hc
+      have h := div_lt_div_of_pos_right this hP
+      push_cast at h
+      rw [sub_div, het] at h
+      exact h
+    rw [e2]; linarith [hS.2, hE2.1]
+
+
 end PallasVerif.Proofs.ExpCmp
